@@ -132,6 +132,31 @@ def _init_worker():
     deps = os.path.join(HOME, ".deps")
     if os.path.isdir(deps) and deps not in sys.path:
         sys.path.append(deps)
+    _single_threaded_ort()
+
+
+def _single_threaded_ort():
+    """onnxscript's eager evaluator creates one onnxruntime session per operator call with default options, i.e. a thread pool as wide as
+    the machine in each of the 16 workers.  Give sessions created without explicit options single-threaded, quiet options (no change of
+    semantics: only the number of threads and the log level)."""
+    try:
+        import onnxruntime as ort
+    except Exception:  # noqa: BLE001
+        return
+    if getattr(ort.InferenceSession, "_verif_patched", False):
+        return
+    orig = ort.InferenceSession.__init__
+
+    def init(self, path_or_bytes, sess_options=None, *args, **kwargs):
+        if sess_options is None:
+            sess_options = ort.SessionOptions()
+            sess_options.intra_op_num_threads = 1
+            sess_options.inter_op_num_threads = 1
+            sess_options.log_severity_level = 4
+        return orig(self, path_or_bytes, sess_options, *args, **kwargs)
+
+    ort.InferenceSession.__init__ = init
+    ort.InferenceSession._verif_patched = True
 
 
 def run_shards(modname, specs, jobs, timeout):
